@@ -173,9 +173,12 @@ func damages(toks []xast.Token) []damaged {
 
 func TestC17Rapid(t *testing.T) {
 	runRapid(t, uC17, func(rt *rapid.T) {
-		doc := xgen.Doc(rt, xgen.DefaultDoc())
+		o := xgen.DefaultDoc()
+		o.Texts = []string{"1", "2", "t", "10", "x y"}
+		doc := xgen.Doc(rt, o)
 		ctx := xgen.Context(rt, doc, 5)
 		g := xgen.NewG(rt, doc)
+		g.NoQuotes = true
 		// literals must not contain quote characters
 		g.StrLits = []string{"1", "2", "t", "10", "x y", "", "a", "b"}
 		var e xast.Expr
